@@ -17,9 +17,9 @@ static inline std::string ser_opd(const WOpd &o) {
     case K_MMX: snprintf(b, sizeof b, "V:0:%d", o.reg); break;
     case K_XMM: snprintf(b, sizeof b, "V:1:%d", o.reg); break;
     case K_YMM: snprintf(b, sizeof b, "V:2:%d", o.reg); break;
-    case K_MEM: snprintf(b, sizeof b, "M:%d:%d:%d:%d:%d:%d:%lld:%d:%d:%d:%d", o.m.base, o.m.index, o.m.scale, o.m.scale_written, o.m.scale_first, o.m.has_disp, (long long)o.m.disp, o.m.disp_hex, o.m.asize, o.m.kw, o.m.width); break;
+    case K_MEM: snprintf(b, sizeof b, "M:%d:%d:%d:%d:%d:%d:%lld:%d:%d:%d:%d:%d", o.m.base, o.m.index, o.m.scale, o.m.scale_written, o.m.scale_first, o.m.has_disp, (long long)o.m.disp, o.m.disp_hex, o.m.asize, o.m.kw, o.m.width, o.m.disp_pad); break;
     case K_IMM: snprintf(b, sizeof b, "I:%llx:%d:%d:%d:%d", (unsigned long long)o.imm.v, o.imm.neg, o.imm.hex, o.imm.pad, o.imm.space); break;
-    case K_REL: snprintf(b, sizeof b, "L:%lld:%d", (long long)o.imm.v, o.imm.hex); break;
+    case K_REL: snprintf(b, sizeof b, "L:%lld:%d:%d", (long long)o.imm.v, o.imm.hex, o.imm.pad); break;
   }
   return b;
 }
@@ -36,9 +36,9 @@ static inline bool parse_case(const std::string &s, LineCase &c) {
     auto g = split(f[i], ':'); if (g.empty()) return false; WOpd o;
     if (g[0] == "G" && g.size() == 4) { o = wgpr(atoi(g[1].c_str()), atoi(g[2].c_str()), g[3] == "1"); }
     else if (g[0] == "V" && g.size() == 3) { int k = atoi(g[1].c_str()); o = wvec(k == 0 ? K_MMX : k == 1 ? K_XMM : K_YMM, atoi(g[2].c_str())); }
-    else if (g[0] == "M" && g.size() == 12) { WMem m; m.base = atoi(g[1].c_str()); m.index = atoi(g[2].c_str()); m.scale = atoi(g[3].c_str()); m.scale_written = g[4] == "1"; m.scale_first = g[5] == "1"; m.has_disp = g[6] == "1"; m.disp = atoll(g[7].c_str()); m.disp_hex = g[8] == "1"; m.asize = atoi(g[9].c_str()); m.kw = atoi(g[10].c_str()); m.width = atoi(g[11].c_str()); o = wmem(m); }
+    else if (g[0] == "M" && (g.size() == 12 || g.size() == 13)) { WMem m; m.base = atoi(g[1].c_str()); m.index = atoi(g[2].c_str()); m.scale = atoi(g[3].c_str()); m.scale_written = g[4] == "1"; m.scale_first = g[5] == "1"; m.has_disp = g[6] == "1"; m.disp = atoll(g[7].c_str()); m.disp_hex = g[8] == "1"; m.asize = atoi(g[9].c_str()); m.kw = atoi(g[10].c_str()); m.width = atoi(g[11].c_str()); if (g.size() == 13) m.disp_pad = atoi(g[12].c_str()); o = wmem(m); }
     else if (g[0] == "I" && g.size() == 6) { o = wimm(strtoull(g[1].c_str(), nullptr, 16), atoi(g[5].c_str()), g[3] == "1", g[2] == "1", atoi(g[4].c_str())); }
-    else if (g[0] == "L" && g.size() == 3) { o = wrel(atoll(g[1].c_str()), g[2] == "1"); }
+    else if (g[0] == "L" && (g.size() == 3 || g.size() == 4)) { o = wrel(atoll(g[1].c_str()), g[2] == "1", g.size() == 4 ? atoi(g[3].c_str()) : 0); }
     else return false;
     c.it.ops.push_back(o);
   }
@@ -107,6 +107,7 @@ static inline void mem_tags(const WMem &m, std::vector<std::string> &t) {
   t.push_back("mem:asize=" + std::to_string(m.asize));
   t.push_back("mem:kw=" + std::to_string(m.kw));
   if (m.base < 0 && m.index < 0) t.push_back("mem:disponly");
+  if (m.disp_pad) t.push_back(m.disp_hex ? "mem:disp-padded" : "mem:disp-dec-leading-zero");
 }
 static inline int minbytes(uint64_t v) { int n = 1; while (n < 8 && (v >> (8 * n))) n++; return n; }
 static inline std::vector<std::string> case_tags(const LineCase &c) {
@@ -127,6 +128,7 @@ static inline std::vector<std::string> case_tags(const LineCase &c) {
       if (v >= 0x80000000ULL) t.push_back("imm:>=0x80000000");
       if (o.imm.v == 1 && !o.imm.neg) t.push_back("imm:one");
       if (o.imm.pad) t.push_back("imm:padded");
+      if (o.imm.pad && !o.imm.hex) t.push_back("imm:dec-leading-zero");
     }
     if (o.k == K_REL) { int64_t d = (int64_t)o.imm.v; if (d < 0) t.push_back("rel:neg"); if (d >= -128 && d <= 127) t.push_back("rel:fits8"); else t.push_back("rel:needs32"); }
   }
